@@ -11,7 +11,8 @@ from vlib.runner import Result, SubCheck, Violation
 
 PROPERTY = "C03"
 LEVEL = "exploration"
-RULE = ("Integer-grid contexts (exact distances, many ties and duplicates), metric in {cityblock, chebyshev, "
+RULE = ("One case in twelve: a Radius history of more than a thousand rows (the first fit repeated) queried at integer multiples of stored rows with the radius exactly on their distance (boundary rows on one ray with the query). "
+        "Integer-grid contexts (exact distances, many ties and duplicates), metric in {cityblock, chebyshev, "
         "sqeuclidean, euclidean}, history fit + 0..3 partial_fit, queries that include stored rows. Radius is placed "
         "ON a realised query-row distance, strictly between two realised distances, or below the minimum; k in 1..n. "
         "Oracle: membership by exact integer arithmetic (euclidean: correctly-rounded sqrt of the exact integer), and "
